@@ -2,12 +2,14 @@ module verifharness
 
 go 1.21
 
-require github.com/douban/gobeansdb v0.0.0
+require (
+	github.com/douban/gobeansdb v0.0.0
+	gopkg.in/yaml.v2 v2.2.7
+)
 
 require (
 	github.com/samuel/go-zookeeper v0.0.0-20190923202752-2cc03de413da // indirect
 	github.com/spaolacci/murmur3 v1.1.0 // indirect
-	gopkg.in/yaml.v2 v2.2.7 // indirect
 )
 
 replace github.com/douban/gobeansdb => /repo
